@@ -8,9 +8,9 @@
   `C05_dist_sound_witness`.  What holds, and is proved here for every grammar, every table and both
   depth-counting modes:
 
-  * the iteration of `preprocess` never increases a value and, when it stops before its fuel runs
-    out, returns a SOLUTION of the (capped) distance equations (`C05_iter_returns_fixpoint_or_fuel`,
-    `C05_analyse_fixpoint`);
+  * the iteration of `preprocess` never increases a value, stops after at most as many rounds as
+    there are symbols, and returns a SOLUTION of the (capped) distance equations
+    (`C05_iter_returns_fixpoint_or_fuel`, `C05_iter_converges`, `C05_analyse_fixpoint`);
   * every finite reported distance is ATTAINED by a derivable program (`C05_dist_upper…`): the
     reported minimum is an upper bound of the true minimum, always;
   * it is a LOWER bound over the programs without empty lists (`C05_dist_sound_partial`), hence the
@@ -91,12 +91,25 @@ theorem C05_stable_iff_fixpoint (g : GrammarSpec) (r : Reg) (nodes : List Sym) (
   have hinv : TableInv g r d := tableInv_iter fuel (tableInv_init g r nodes)
   exact ⟨isFixpoint_of_stable hinv, stable_of_isFixpoint (fun p hp => (hinv p hp).1)⟩
 
-/-- The analysed grammar: if the loop stopped because nothing changed, the reported table is a
-solution of the equations. -/
+/-- The fuel is never the reason to stop: started from the all-`INF` table over `nodes`, after at
+most `nodes.length` rounds nothing changes any more (every round that changes the table gives at
+least one more symbol its final value), so with `nodes.length + 1` fuel or more the loop returns a
+table unchanged by a round, which solves the equations. -/
+theorem C05_iter_converges (g : GrammarSpec) (r : Reg) (nodes : List Sym) (fuel : Nat)
+    (hf : nodes.length + 1 ≤ fuel) :
+    let d := distIter g r fuel (nodes.map fun s => (s, INF))
+    distStep g r d = d ∧ isFixpoint g r d = true := by
+  intro d
+  have hinv := tableInv_init g r nodes
+  have hst : distStep g r d = d := distIter_stable hinv (by simpa using hf)
+  exact ⟨hst, isFixpoint_of_stable (tableInv_iter fuel hinv) hst⟩
+
+/-- The analysed grammar, unconditionally: the reported table is unchanged by a further round and
+is a solution of the capped distance equations. -/
 theorem C05_analyse_fixpoint (g : GrammarSpec) :
-    distStep g (analyse g).reg (analyse g).dist = (analyse g).dist →
+    distStep g (analyse g).reg (analyse g).dist = (analyse g).dist ∧
     isFixpoint g (analyse g).reg (analyse g).dist = true :=
-  isFixpoint_of_stable (tableInv_iter _ (tableInv_init g _ _))
+  C05_iter_converges g _ _ _ (by omega)
 
 /-! ### 2. Soundness (lower bound) — needs "no empty list" -/
 
@@ -203,12 +216,10 @@ theorem C05_dist_exact_partial {g : GrammarSpec} {r : Reg} {d : DistTable}
   obtain ⟨v, k, h1, h2, h3⟩ := (C05_dist_exact_cost_partial hfix hcl hr hty).1 hfin
   exact ⟨v, h1.toDerives, h2, by rw [← derivesK_cost_eq_depth he h1]; exact h3⟩
 
-/-- The analysed grammar, both modes, no acyclicity hypothesis: if the loop stopped because
-nothing changed and the registered symbols are closed under successors, every registered symbol's
-reported distance is the minimum derivation cost (= depth when `g.e = 0`) over the programs
-without empty lists. -/
+/-- The analysed grammar, both modes, no acyclicity hypothesis: if the registered symbols are
+closed under successors, the reported distance of every type over registered symbols is the
+minimum derivation cost (= depth when `g.e = 0`) over the programs without empty lists. -/
 theorem C05_analyse_exact_partial (g : GrammarSpec)
-    (hst : distStep g (analyse g).reg (analyse g).dist = (analyse g).dist)
     (hcl : Closed g (analyse g).reg (analyse g).dist)
     {ty : Ty} (hty : ∀ s ∈ explode ty, s ∈ (analyse g).reg.allNodes) :
     let a := analyse g
@@ -218,7 +229,7 @@ theorem C05_analyse_exact_partial (g : GrammarSpec)
     (∀ v k, DerivesK g a.reg ty v k → NoEmptyList v = true → a.distOf ty ≤ k) ∧
     (g.e = 0 → ∀ v, Derives g a.reg ty v → NoEmptyList v = true → a.distOf ty ≤ v.depth) := by
   intro a
-  have hfix : isFixpoint g a.reg a.dist = true := C05_analyse_fixpoint g hst
+  have hfix : isFixpoint g a.reg a.dist = true := (C05_analyse_fixpoint g).2
   have hkeys : keys a.dist = a.reg.allNodes := by
     show keys (distIter g _ _ _) = _
     rw [keys_distIter]; simp only [keys, List.map_map, Function.comp_def, List.map_id']; rfl
@@ -266,12 +277,11 @@ theorem C05_fixpoint_unique {g : GrammarSpec} {r : Reg} {d d' : DistTable}
       omega
     · omega
 
-/-- Order independence for the analysed grammar: if the loop stopped because nothing changed, ANY
-solution of the equations over the registered symbols — in particular the one a loop visiting the
-symbols in another order would stop on — is the reported table. -/
+/-- Order independence for the analysed grammar: ANY solution of the equations over the
+registered symbols — in particular the one a loop visiting the symbols in another order would stop
+on — is the reported table. -/
 theorem C05_analyse_order_independent (g : GrammarSpec) {rank : Nat → Nat}
     (hrank : ParentRanked g.classes rank)
-    (hst : distStep g (analyse g).reg (analyse g).dist = (analyse g).dist)
     (hcl : Closed g (analyse g).reg (analyse g).dist)
     {d' : DistTable} (hfix' : isFixpoint g (analyse g).reg d' = true)
     (hkeys : ∀ s, s ∈ keys d' ↔ s ∈ (analyse g).reg.allNodes) (s : Sym) :
@@ -284,7 +294,7 @@ theorem C05_analyse_order_independent (g : GrammarSpec) {rank : Nat → Nat}
     rw [hkeys] at hx ⊢
     rw [← hk] at hx ⊢
     exact hcl x hx y hy
-  exact C05_fixpoint_unique hfix' (C05_analyse_fixpoint g hst) hcl' hcl
+  exact C05_fixpoint_unique hfix' (C05_analyse_fixpoint g).2 hcl' hcl
     (C05_productions_acyclic g hrank) (fun s => by rw [hkeys, hk]) s
 
 /-! ### 5. Recursion = a cycle of the successor graph -/
